@@ -368,3 +368,145 @@ def u_format(ctx):
             eng.oblige("result=the-render-padded-with-exactly-the-interpreted-alignment-and-padding-size" + ("" if pr_ == "C19" else "(C05:each-axis-on-its-own)"), s2,
                        And(is_sym(val) and z3.is_int(val), val == want if is_sym(val) and z3.is_int(val) else False, len(s.ghost["renders"]) == 1), prop=pr_, kind="post")
     return eng.obligations
+
+
+# ------------------------------------------------------------------------------------------------ _check_style_args: the values against the class tables
+DOC_STYLE_ARGS = {
+    # documented parameters of the two graphics styles (docs of KittyImage / ITerm2Image, "style-specific render parameters"):
+    # name -> (type, documented default, documented range as a predicate over the symbolic value, lower-cased for method)
+    "KittyImage": {"method": ("str", None), "z_index": ("int", 0), "mix": ("bool", False), "compress": ("int", 4)},
+    "ITerm2Image": {"method": ("str", None), "mix": ("bool", False), "compress": ("int", 9 - 5)},
+}
+
+
+def _style_table_node(ctx, rel, cname):
+    import ast as _ast
+    tree, _ = ctx.tree(rel)
+    for n in tree.body:
+        if isinstance(n, _ast.ClassDef) and n.name == cname:
+            for b in n.body:
+                if isinstance(b, _ast.Assign) and len(b.targets) == 1 and getattr(b.targets[0], "id", None) == "_style_args":
+                    return b.value
+    raise Unsupported(f"{cname}._style_args not found as a class-body assignment")
+
+
+def style_args_unit(cname, rel):
+    @unit(("C19", "C20"), f"common:BaseImage._check_style_args[{cname}]")
+    def u(ctx):
+        """The real body of `BaseImage._check_style_args` over the real `_style_args` table of the class (the table's lambdas are
+        evaluated from the class body): a mapping holding every documented parameter with a value of any type is accepted iff every
+        value has the documented type and lies in the documented range; the result is the SAME mapping with exactly the entries
+        equal to their documented default removed and every other value untouched; a wrong type raises TypeError, a value out of
+        range ValueError, a name that is not a parameter of the style StyleError - and nothing else is raised."""
+        import ast as _ast
+        doc = DOC_STYLE_ARGS[cname]
+        methods = ctx.class_const(cname, "_render_methods")
+        obs = []
+        kinds = {"str": lambda n: z3.String(f"{n}_text"), "int": lambda n: z3.Int(f"{n}_number"), "bool": lambda n: z3.Bool(f"{n}_flag"), "none": lambda n: None}
+        # one world per (parameter given a value of a foreign kind | all of the documented kind) x (an unknown name present or not)
+        worlds = [({}, False), ({}, True)]
+        for nm, (ty, _) in doc.items():
+            for other in kinds:
+                if other != ty:
+                    worlds.append(({nm: other}, False))
+        for foreign, unknown in worlds:
+            tag = ",".join(f"{k}:{v}" for k, v in foreign.items()) or "documented-types"
+            eng = ctx.engine(f"C19/_check_style_args[{cname},{tag}{',unknown-name' if unknown else ''}]", "C19")
+            eng.default_replay = "C19.style_args"
+            st = State()
+            eng.exc_parents["StyleError"] = "TermImageError"
+            eng.genv["StyleError"] = ClassV("StyleError")
+            here = Rec("classcell", {"_render_methods": methods})          # `__class__` inside the table's lambdas: the class being defined
+            # the engine resolves a closure's free names in the frame it is called from, where `__class__` is BaseImage (the function
+            # under contract): the table's own `__class__` cell is renamed mechanically before evaluation (nothing else is rewritten)
+            import copy as _copy
+            node = _copy.deepcopy(_style_table_node(ctx, rel, cname))
+            for n_ in _ast.walk(node):
+                if isinstance(n_, _ast.Name) and n_.id == "__class__":
+                    n_.id = "__defining_class__"
+            st.env["__defining_class__"] = here
+            (table, st), = eng.ev(node, st)
+            if set(st.H(table)["@items"]) != set(doc):
+                eng.oblige("the-class-table-lists-exactly-the-documented-parameters", st, False, kind="post")
+                obs += eng.obligations
+                continue
+            base = st.new("imgcls", {"__name__": "BaseImage", "_style_args": st.new("dict", {"@items": {}})})
+            mid = st.new("imgcls", {"__name__": "GraphicsImage"})
+            cls = st.new("imgcls", {"__name__": cname, "_style_args": table})
+            st.H(cls)["__mro__"] = (cls, mid, base, Opaque("object"))
+            own = {cls.id: True, mid.id: False, base.id: True}
+            eng.genv["issubclass"] = Fn(lambda e, s, a, k: [(isinstance(a[0], Ref) and a[0].cls == "imgcls", s)])
+            eng.genv["vars"] = Fn(lambda e, s, a, k: [((("_style_args",) if own.get(a[0].id) else ()), s)])
+
+            def super_(e, s, a, k):
+                after = {cls.id: base, mid.id: base}.get(a[0].id)
+                if after is None:
+                    raise Unsupported("super() past the base class")
+                return [(after, s)]
+            eng.genv["super"] = Fn(super_)
+            vals, items = {}, {}
+            for nm, (ty, _) in doc.items():
+                vals[nm] = kinds[foreign.get(nm, ty)](nm)
+                items[nm] = vals[nm]
+            if unknown:
+                items["no_such_parameter"] = z3.Int("unknown_value")
+            args = st.new("dict", {"@items": dict(items)})
+            st.env.update(cls=cls, style_args=args)
+            st.env["__class__"] = base
+            outs = run_function(eng, ctx.fn(COMMON, "BaseImage._check_style_args"), st)
+
+            def valid(nm):
+                v = vals[nm]
+                if nm == "method":
+                    return z3.Or(*[PY_CASE_LOWER(v) == z3.StringVal(m) for m in sorted(methods)])
+                if nm == "z_index":
+                    return z3.And(v > -(2 ** 31), v < 2 ** 31)
+                if nm == "compress":
+                    return z3.And(v >= 0, v <= 9)
+                return z3.BoolVal(True)
+            typed = [nm for nm in doc if nm not in foreign or (doc[nm][0] == "int" and foreign[nm] == "bool")]      # bool IS an int
+            for nm in doc:
+                if nm in foreign and nm in typed:      # a bool where an int is documented: accepted as the number it is
+                    b = vals[nm]
+                    vals[nm] = z3.If(b, 1, 0)
+            all_valid = z3.And(*[valid(nm) for nm in typed]) if typed else z3.BoolVal(True)
+            wrong_type = [nm for nm in doc if nm not in typed]
+            for kind, val, s in outs:
+                if kind == "raise":
+                    if val.cls == "TypeError":
+                        goal = bool(wrong_type)
+                    elif val.cls == "ValueError":
+                        goal = z3.Not(all_valid)
+                    elif val.cls == "StyleError":
+                        goal = unknown
+                    else:
+                        goal = False
+                    eng.oblige(f"{val.cls}-only-for-its-documented-reason", s, goal, kind="raise")
+                    eng.oblige("rejected-only-if-something-is-wrong", s, Or(bool(wrong_type), unknown, z3.Not(all_valid)), kind="raise")
+                    continue
+                eng.oblige("accepted-only-if-every-name-is-a-parameter-with-a-value-of-the-documented-type-and-range", s,
+                           And(not wrong_type, not unknown, all_valid), kind="post")
+                if wrong_type or unknown:
+                    continue
+                eng.oblige("returns-the-mapping-it-was-given", s, val is args or (isinstance(val, Ref) and val.id == args.id), kind="post")
+                left = s.H(args)["@items"]
+                for nm, (ty, dflt) in doc.items():
+                    v = items[nm]
+                    if dflt is None:
+                        eng.oblige(f"{nm}:kept-unchanged(no-default-value-to-drop)", s, nm in left and left.get(nm) is v, kind="post")
+                        continue
+                    is_default = (vals[nm] == dflt) if ty != "bool" else (v == dflt if not z3.is_int(vals[nm]) else vals[nm] == int(dflt))
+                    if nm in left:
+                        eng.oblige(f"{nm}:kept-only-if-not-the-documented-default,unchanged", s, And(z3.Not(is_default), left[nm] is v), kind="post")
+                    else:
+                        eng.oblige(f"{nm}:dropped-only-if-equal-to-the-documented-default", s, is_default, kind="post")
+                eng.oblige("nothing-added", s, set(left) <= set(items), kind="post")
+            obs += eng.obligations
+        return obs
+    return u
+
+
+from pyvc.engine import PY_CASE as _PY_CASE
+PY_CASE_LOWER = _PY_CASE["lower"]
+style_args_unit("KittyImage", "image/kitty.py")
+style_args_unit("ITerm2Image", "image/iterm2.py")
